@@ -114,6 +114,7 @@ func main() {
 		pc.Run(p, rep, *tier)
 		if stateless[*prop] {
 			globals.Stateless(p, rep)
+			globals.Lints(p, rep)
 		}
 		return
 	}
